@@ -58,6 +58,9 @@ func c14Check(c c14Case) vfResult {
 	flags := map[string]bool{}
 	sameParent := map[string]int{}
 	invariant := func(step int) error {
+		if len(c.Steps) > 100 && step%50 != 49 && step != len(c.Steps)-1 {
+			return nil // long histories: full invariants every 50th step and at the end
+		}
 		for i, x := range pool {
 			m := Detect(x)
 			got := vfChain(m)
@@ -234,6 +237,20 @@ func c14Gen(t *rapid.T) c14Case {
 		}
 		x := c.Pool[0]
 		c.Steps = append(c.Steps, c14Step{Op: "probe", X: x, Lim: vfGenLimit(t, len(x))})
+		return c
+	}
+	if rapid.IntRange(0, 149).Draw(t, "many") == 0 {
+		// hundreds of extensions under one parent; the newest accepting one must win
+		parent := rapid.SampledFrom([]string{"", "text/plain", "application/zip"}).Draw(t, "manyparent")
+		n := rapid.IntRange(200, 900).Draw(t, "manyn")
+		for i := 0; i < n; i++ {
+			e := vfExt{Parent: parent, Mime: fmt.Sprintf("application/x-verif-%d", i), Ext: fmt.Sprintf(".vf%d", i), Pred: vfPred{Kind: "never"}}
+			if i%97 == 5 || i == n-1 {
+				e.Pred = vfPred{Kind: "prefix", Arg: vfB("VF")}
+			}
+			ec := e
+			c.Steps = append(c.Steps, c14Step{Op: "extend", Ext: &ec})
+		}
 		return c
 	}
 	ns := rapid.IntRange(1, 8).Draw(t, "nsteps")
